@@ -109,9 +109,29 @@ def resume_splits(rep, rng, tier):
             for n in range(1, N):
                 p1, _ = runs.traced_solve(dev, runs.make_options(td, solve_time=n * dt, output_file=f"{td}/a{n}.h5", **common_kw),
                                           A=0.4, currents=cur)
+                seed_hash = hashlib.sha256(b"".join(np.ascontiguousarray(np.asarray(getattr(p1.tdgl_data, nm))).tobytes()
+                                                    for nm in FIELDS)).hexdigest()
                 p2, _ = runs.traced_solve(dev, runs.make_options(td, solve_time=(N - n) * dt, output_file=f"{td}/b{n}.h5", **common_kw),
                                           A=0.4, currents=cur, seed_solution=p1)
                 fr = read_frames(p2.path)
+                after = hashlib.sha256(b"".join(np.ascontiguousarray(np.asarray(getattr(p1.tdgl_data, nm))).tobytes()
+                                                for nm in FIELDS)).hexdigest()
+                if after != seed_hash:
+                    rep.violation("resuming from a saved state modified the seed solution's in-memory data (aliasing)",
+                                  {"split_after": n, "screening": screening})
+                if n in (3, 8):
+                    # the same seed object used a second time, observed differently
+                    kw2 = dict(common_kw)
+                    kw2["save_every"] = 4
+                    p3, _ = runs.traced_solve(dev, runs.make_options(td, solve_time=(N - n) * dt, output_file=f"{td}/c{n}.h5",
+                                                                     progress_interval=10, **kw2),
+                                              A=0.4, currents=cur, seed_solution=p1)
+                    for s3, (h3, t3, d3) in read_frames(p3.path).items():
+                        if (n + s3) not in ref or ref[n + s3][0] != h3:
+                            rep.violation("a second resume from the same seed object does not reproduce the uninterrupted run",
+                                          {"split_after": n, "frame_step_in_resumed_run": s3, "screening": screening})
+                            break
+                    rep.count(1)
                 ok = True
                 for s, (h, t, d) in fr.items():
                     if (n + s) not in ref or ref[n + s][0] != h:
